@@ -1047,6 +1047,26 @@ impl<'a, R: 'a + Read> Read for CompressionLayerFailSafeReader<'a, R> {
                     // OUT: total number of byte written for the current stream (cumulative)
                     let mut written = 0;
 
+                    // Verification hook: one event per loop iteration, with the decoder's answer
+                    #[cfg(mla_verif)]
+                    #[allow(clippy::cast_possible_wrap)]
+                    let verif_iter = {
+                        let before = [
+                            ("n", buf.len() as i64),
+                            ("eof", i64::from(inner_eof)),
+                            ("filled", cache_filled_offset as i64),
+                            ("roff", read_offset as i64),
+                            ("uread", i64::from(uncompressed_read)),
+                            ("avail_in", available_in as i64),
+                            ("avail_out", available_out as i64),
+                        ];
+                        move |res: i64, cons: usize, prod: usize| {
+                            let mut fields = before.to_vec();
+                            fields.extend([("res", res), ("cons", cons as i64), ("prod", prod as i64)]);
+                            crate::verif::emit("comp_fs_iter", &fields);
+                        }
+                    };
+
                     // The decompressor is called even without new input: it
                     // may still have pending output
                     match brotli::BrotliDecompressStream(
@@ -1060,6 +1080,8 @@ impl<'a, R: 'a + Read> Read for CompressionLayerFailSafeReader<'a, R> {
                         &mut state,
                     ) {
                         brotli::BrotliResult::ResultSuccess => {
+                            #[cfg(mla_verif)]
+                            verif_iter(0, input_offset, output_offset);
                             // End of stream reached
 
                             // Rewind the cache to the actual start of the new block
@@ -1080,6 +1102,8 @@ impl<'a, R: 'a + Read> Read for CompressionLayerFailSafeReader<'a, R> {
                             // Nothing produced: go on with the next stream
                         }
                         brotli::BrotliResult::NeedsMoreInput => {
+                            #[cfg(mla_verif)]
+                            verif_iter(1, input_offset, output_offset);
                             // Bytes may have been read and produced
                             read_offset += input_offset;
                             uncompressed_read += match u32::try_from(output_offset) {
@@ -1111,6 +1135,8 @@ impl<'a, R: 'a + Read> Read for CompressionLayerFailSafeReader<'a, R> {
                             // Nothing produced yet: get more input
                         }
                         brotli::BrotliResult::NeedsMoreOutput => {
+                            #[cfg(mla_verif)]
+                            verif_iter(2, input_offset, output_offset);
                             // Bytes may have been read and produced
                             read_offset += input_offset;
                             uncompressed_read += match u32::try_from(output_offset) {
@@ -1126,6 +1152,8 @@ impl<'a, R: 'a + Read> Read for CompressionLayerFailSafeReader<'a, R> {
                             break Ok(output_offset);
                         }
                         brotli::BrotliResult::ResultFailure => {
+                            #[cfg(mla_verif)]
+                            verif_iter(3, input_offset, output_offset);
                             break Err(io::Error::new(
                                 io::ErrorKind::InvalidData,
                                 "Invalid Data while decompressing",
@@ -1134,6 +1162,26 @@ impl<'a, R: 'a + Read> Read for CompressionLayerFailSafeReader<'a, R> {
                     }
                 };
 
+                // Verification hook: what the call returns, and the state it leaves
+                #[cfg(mla_verif)]
+                #[allow(clippy::cast_possible_wrap)]
+                crate::verif::emit(
+                    "comp_fs_ret",
+                    &[
+                        ("n", buf.len() as i64),
+                        (
+                            "ret",
+                            match &ret {
+                                Ok(k) => *k as i64,
+                                Err(e) if e.kind() == io::ErrorKind::UnexpectedEof => -1,
+                                Err(_) => -2,
+                            },
+                        ),
+                        ("filled", cache_filled_offset as i64),
+                        ("roff", read_offset as i64),
+                        ("uread", i64::from(uncompressed_read)),
+                    ],
+                );
                 self.state = CompressionLayerFailSafeReaderState::InData {
                     cache,
                     cache_filled_offset,
